@@ -325,15 +325,15 @@ def _solver_type(which):
 
 
 def integrate(which, prob, n, via):
-    """n equal steps over [t0, t0+L] through the real solver; returns (y_end, t_end, calls, accepted)
-    calls = list of callback times in order, accepted = list of accepted times"""
+    """n equal steps over [t0, t0+L] through the real solver; returns (y_end, t_end, calls, accepted, traj)
+    calls = list of callback times in order, accepted = list of accepted times, traj = accepted states"""
     vlib.use_repo()
     from kawin.solver.Solver import DESolver
     from kawin.GenericModel import GenericModel
     f = _rhs(prob['ode'], prob['p'], prob['q'])
     t0, L = prob['t0'], prob['L']
     dt = L / n
-    calls, accepted = [], []
+    calls, accepted, traj = [], [], []
     if via == 'desolver':
         # DESolver used directly on a flat array (flatten/unflatten are the identity defaults)
         s = DESolver(_solver_type(which), minDtFrac=1e-8, maxDtFrac=1)
@@ -343,11 +343,11 @@ def integrate(which, prob, n, via):
             calls.append(float(t)); return f(t, x)
 
         def post(t, x):
-            accepted.append(float(t)); state['x'] = x; return x, False
+            accepted.append(float(t)); state['x'] = x; traj.append(np.array(x, float)); return x, False
         s.setFunctions(postProcess=post)
         s.setdXdtFunctions(ff, s.correctdXdtNotImplemented, lambda dXdt: dt, s.flattenXNotImplemented, s.unflattenXNotImplemented)
         s.solve(t0, np.array(prob['y0'], float), t0 + L)
-        return np.asarray(state['x'], float), accepted[-1], calls, accepted
+        return np.asarray(state['x'], float), accepted[-1], calls, accepted, traj
 
     class M(GenericModel):
         def __init__(m):
@@ -357,10 +357,10 @@ def integrate(which, prob, n, via):
             calls.append(float(t)); return [f(t, x[0])]
         def getDt(m, dXdt): return dt
         def postProcess(m, time, x):
-            m.t = time; m.y = x[0]; accepted.append(float(time)); return x, False
+            m.t = time; m.y = x[0]; accepted.append(float(time)); traj.append(np.array(x[0], float)); return x, False
     m = M()
     m.solve(L, solverType=_solver_type(which), minDtFrac=1e-8, maxDtFrac=1)
-    return np.asarray(m.y, float), m.t, calls, accepted
+    return np.asarray(m.y, float), m.t, calls, accepted, traj
 
 
 def one_step(which, prob, t, x, dt, fvariant='plain'):
@@ -405,28 +405,45 @@ EXPECT_C = {'euler': [0.0], 'rk4': [0.0, 0.5, 0.5, 1.0]}
 
 
 def order_case(res, which, prob, via, desc=None):
-    """step-halving order estimate through the real solver; violation if below nominal - 0.3"""
+    """step-halving order estimate through the real solver.  The number of steps is doubled until the
+    estimate from the last two levels reaches nominal - 0.3 (asymptotic regime), or the error reaches
+    round-off (no estimate possible: counted, not flagged); a violation is an estimate that stays
+    below nominal - 0.3 up to the finest level (6 halvings)."""
     nom = NOMINAL[which]
     n = 32 if which == 'euler' else 8
-    tf = prob['t0'] + prob['L']
-    exact = np.atleast_1d(_exact(prob['ode'], prob['p'], prob['q'], prob['t0'], prob['y0'] if prob['ode'] in VECTOR else prob['y0'][0], tf))
-    errs = []
-    for m in (n, 2 * n, 4 * n):
-        y, tend, calls, acc = integrate(which, prob, m, via)
-        errs.append(float(np.max(np.abs(np.atleast_1d(y) - exact))))
-    scale = float(np.max(np.abs(exact))) + 1.0
-    floor = 1e-12 * scale
-    desc = dict(desc or {}, iterator=which, via=via, n=[n, 2 * n, 4 * n], errors=errs, **prob)
-    if errs[1] <= floor or errs[2] <= floor:
+    y0 = prob['y0'] if prob['ode'] in VECTOR else prob['y0'][0]
+    errs, ns, ps = [], [], []
+    scale = 1.0
+    verdict = None
+    for lev in range(7):
+        m = n * 2 ** lev
+        y, tend, calls, acc, traj = integrate(which, prob, m, via)
+        # error in the maximum norm over the whole trajectory (the error at one instant can pass
+        # through zero for particular parameters, which would spoil a step-halving estimate)
+        e = 0.0
+        for tk, yk in zip(acc, traj):
+            ex = np.atleast_1d(_exact(prob['ode'], prob['p'], prob['q'], prob['t0'], y0, tk))
+            e = max(e, float(np.max(np.abs(np.atleast_1d(yk) - ex))))
+            scale = max(scale, float(np.max(np.abs(ex))))
+        errs.append(e); ns.append(m)
+        if e <= 1e-12 * scale * max(1.0, m / 64):
+            verdict = 'roundoff'; break
+        if lev >= 1:
+            ps.append(math.log2(errs[-2] / errs[-1]))
+            if lev >= 2 and ps[-1] >= nom - 0.3:
+                verdict = 'ok'; break
+    desc = dict(desc or {}, iterator=which, via=via, n=ns, errors=errs, **prob)
+    if verdict == 'roundoff':
         res.count('order:%s:exact-to-roundoff' % which)
         return None
-    pobs = math.log2(errs[1] / errs[2])
-    res.count('order:%s:%s' % (which, 'nominal' if abs(pobs - nom) <= 0.3 else 'higher' if pobs > nom else 'LOWER'))
-    if pobs < nom - 0.3:
+    pobs = ps[-1]
+    res.count('order:%s:%s' % (which, 'LOWER' if verdict is None else 'nominal' if abs(pobs - nom) <= 0.3 else 'higher'))
+    res.count('order:levels-needed:%d' % len(ns))
+    if verdict is None:
         kind = 'autonomous' if prob['ode'] in AUTONOMOUS else 'time-dependent'
         res.violate('order-%s-%s-rhs' % (which, kind),
                     '%s iterator: observed convergence order %.2f on %s problem %s (errors %s for %s steps)' % (
-                        which, pobs, kind, prob['ode'], ['%.3g' % e for e in errs], [n, 2 * n, 4 * n]),
+                        which, pobs, kind, prob['ode'], ['%.3g' % e for e in errs], ns),
                     dict(desc, kind='order'), round(pobs, 3), '>= %d - 0.3' % nom)
     return pobs
 
@@ -434,7 +451,7 @@ def order_case(res, which, prob, via, desc=None):
 def times_case(res, which, prob, via, n=4):
     """callback times recorded through the real solver: every step evaluates the right-hand side at
     t + c_i*dt with c = (0) / (0, 1/2, 1/2, 1)"""
-    y, tend, calls, acc = integrate(which, prob, n, via)
+    y, tend, calls, acc, _ = integrate(which, prob, n, via)
     s = len(EXPECT_C[which])
     starts = [prob['t0']] + acc[:-1]
     ok = len(calls) == s * len(acc)
@@ -597,7 +614,7 @@ def corr(ctx, oracle_only=False, nmul=1):
         res.count('times-check:' + which)
     # the design's designated witness first, then the random family
     witness = dict(ode='poly', p=1.0, q=1.0, t0=0.0, L=1.0, y0=[1.0])
-    y, tend, calls, acc = integrate('rk4', witness, 2, 'model')
+    y, tend, calls, acc, _ = integrate('rk4', witness, 2, 'model')
     if not close(float(y[0]), 2.0, 1e-12):
         res.violate('rk4-not-exact-on-linear-in-t', "RK4 on y'=2t, y(0)=1, two steps of 0.5 gives %r, exact value 2.0 (a 4th-order method integrates polynomials in t up to degree 3 exactly)" % float(y[0]),
                     dict(witness, kind='witness', iterator='rk4', via='model', n=2), float(y[0]), 2.0)
